@@ -40,7 +40,7 @@ Qed.
 (* ---- the relation between the two UTXO maps: every entry of the sat-index model is an entry of ours with the
    same ranges (real outpoints), and our null-outpoint entry holds its lost ranges *)
 Definition RU (U : list (outpoint * uentry)) (m : S.umap) : Prop :=
-  forall op rs, S.aget S.op_eqb op m = Some rs -> exists u, tgP op U = Some u /\ u_ranges u = rs.
+  forall op rs, fst op <> 0 -> S.aget S.op_eqb op m = Some rs -> exists u, tgP op U = Some u /\ u_ranges u = rs.
 Definition RN (U : list (outpoint * uentry)) (lost : list (N * N)) : Prop :=
   u_ranges (entry_at null_op U) = lost.
 
@@ -78,19 +78,20 @@ Qed.
 (* ---- inputs *)
 
 Lemma take_inputs_bridge : forall ins U m ents U1 irs m1,
-  RU U m -> take_inputs ins U = Ok (ents, U1) -> S.take_inputs ins m = Ok (irs, m1) ->
+  RU U m -> Forall (fun p => fst p <> 0) ins ->
+  take_inputs ins U = Ok (ents, U1) -> S.take_inputs ins m = Ok (irs, m1) ->
   irs = concat (map u_ranges ents) /\ RU U1 m1.
 Proof.
-  intros ins. induction ins as [|p r IH]; intros U m ents U1 irs m1 HR H1 H2; cbn [take_inputs S.take_inputs] in *.
+  intros ins. induction ins as [|p r IH]; intros U m ents U1 irs m1 HR HZ H1 H2; cbn [take_inputs S.take_inputs] in *.
   - inv H1. inv H2. auto.
-  - destruct (tgP p U) as [u|] eqn:Q1; [|discriminate]. destruct (S.aget S.op_eqb p m) as [rs|] eqn:Q2; [|discriminate].
+  - apply Forall_cons_iff in HZ. destruct HZ as [Z1 Z2]. destruct (tgP p U) as [u|] eqn:Q1; [|discriminate]. destruct (S.aget S.op_eqb p m) as [rs|] eqn:Q2; [|discriminate].
     dbind H1. destruct a as [us U2]. inv H1. dbind H2. destruct a as [rest m2]. inv H2.
-    destruct (HR p rs Q2) as (u' & A & B). rewrite Q1 in A. inv A.
+    destruct (HR p rs Z1 Q2) as (u' & A & B). rewrite Q1 in A. inv A.
     assert (HR' : RU (tdel pair_eqb p U) (S.adel S.op_eqb p m)).
-    { intros op rs' Hq. rewrite aget_adel in Hq. destruct (pair_eqb op p) eqn:Q; [discriminate|].
-      destruct (HR op rs' Hq) as (u2 & A2 & B2). exists u2. split; auto.
+    { intros op rs' Hz Hq. rewrite aget_adel in Hq. destruct (pair_eqb op p) eqn:Q; [discriminate|].
+      destruct (HR op rs' Hz Hq) as (u2 & A2 & B2). exists u2. split; auto.
       rewrite (tget_tdel_other pair_eqb pair_eqb_eq); auto. intro. subst. rewrite pair_eqb_refl in Q. discriminate. }
-    destruct (IH _ _ _ _ _ _ HR' E E0) as [I1 I2]. split; auto. cbn [map concat]. rewrite I1. reflexivity.
+    destruct (IH _ _ _ _ _ _ HR' Z2 E E0) as [I1 I2]. split; auto. cbn [map concat]. rewrite I1. reflexivity.
 Qed.
 
 (* ---- outputs *)
@@ -102,9 +103,9 @@ Proof.
   intros cfg txid outs. induction outs as [|o r IH]; intros per_out vout U m d HS HL HR.
   - destruct per_out; [|discriminate]. cbn. exact HR.
   - destruct per_out as [|e es]; [discriminate|]. cbn [put_outputs S.put_outputs hd tl]. rewrite HS. apply IH; auto.
-    intros op rs Hq. rewrite aget_aset in Hq. rewrite tgP_set. destruct (pair_eqb op (txid, vout)).
+    intros op rs Hz Hq. rewrite aget_aset in Hq. rewrite tgP_set. destruct (pair_eqb op (txid, vout)).
     + inv Hq. eexists. split; [reflexivity|]. reflexivity.
-    + apply HR. exact Hq.
+    + apply HR; auto.
 Qed.
 
 Lemma split_sats_length : forall outs rs per_out lft, split_sats outs rs = Ok (per_out, lft) -> length per_out = length outs.
@@ -170,4 +171,57 @@ Proof.
   - destruct (assign _ _ _ _ _) as [[locs rest] ov]. dbind H. dbind H. dbind H. inv H. cbn [b_st b_lost_ranges b_cb_ranges].
     pose proof (apply_locs_aux _ _ _ _ _ E0) as (_ & _ & _ & A4 & A5 & _).
     split; [|split; congruence]. eapply apply_locs_keeps; eauto.
+Qed.
+
+(* ---- one transaction *)
+
+Lemma RU_keeps : forall U U' m, keeps_ranges U U' -> RU U m -> RU U' m.
+Proof.
+  intros U U' m [_ K] HR op rs Hz Hq. destruct (HR op rs Hz Hq) as (u & A & B). destruct (K op u A) as (u' & A' & B').
+  exists u'. split; auto. congruence.
+Qed.
+
+Lemma RN_keeps : forall U U' l, keeps_ranges U U' -> RN U l -> RN U' l.
+Proof. intros U U' l [K _] H. unfold RN. rewrite K. exact H. Qed.
+
+Lemma index_tx_bridge : forall cfg h insc t b b' m m2 lft w d lost,
+  c_sats cfg = true -> RU (s_utxo (b_st b)) m -> RN (s_utxo (b_st b)) lost ->
+  tx_plain t -> ins_real t -> t_id t <> 0 ->
+  index_tx cfg h insc false t b = Ok b' -> S.index_tx (erase_tx t) m = Ok (m2, lft, w, d) ->
+  RU (s_utxo (b_st b')) m2 /\ RN (s_utxo (b_st b')) lost /\
+  b_cb_ranges b' = b_cb_ranges b ++ lft /\ b_lost_ranges b' = b_lost_ranges b.
+Proof.
+  intros cfg h insc t b b' m m2 lft w d lost HS HR HN HP HI Hz H1 H2.
+  unfold index_tx in H1. rewrite HS in H1. unfold S.index_tx in H2. cbn [erase_tx S.ins S.outs S.txid] in H2.
+  dbind H1. destruct a as [ents U1]. rename E into ET. dbind H1. destruct a as [[per_out in_ranges] b1]. dbind E. destruct a as [po left1]. inv E. rename E0 into ESp.
+  dbind H2. destruct a as [irs m1]. rename E into ET2. dbind H2. destruct a as [[ents2 lft2] w2]. rename E into EA2.
+  destruct (S.put_outputs (t_id t) 0 ents2 m1 []) as [m2' d'] eqn:EP. inv H2.
+  destruct (take_inputs_bridge _ _ _ _ _ _ _ HR HI ET ET2) as [-> HR1].
+  destruct (split_sats_eq _ _ _ _ (t_id t) 0 ESp) as (w' & EA). unfold erase_outs in EA. rewrite EA in EA2. inv EA2.
+  destruct (take_inputs_tg _ _ _ _ ET) as (_ & _ & T3).
+  set (utxo2 := put_outputs cfg (t_id t) 0 (t_outs t) ents2 U1) in *.
+  assert (R2 : RU utxo2 m2).
+  { pose proof (put_outputs_bridge cfg (t_id t) (t_outs t) ents2 0 U1 m1 [] HS (split_sats_length _ _ _ _ ESp) HR1) as Q.
+    rewrite EP in Q. exact Q. }
+  assert (N2 : RN utxo2 lost).
+  { unfold RN, entry_at in *. subst utxo2. rewrite put_outputs_tg_other by (cbn; auto). rewrite T3; auto.
+    intro Hin0. unfold tx_plain in HP. rewrite forallb_forall in HP. specialize (HP _ Hin0). discriminate. }
+  destruct insc.
+  - destruct (index_inscriptions_keeps _ _ _ _ _ _ _ H1) as (K & A & B). cbn [set_st b_st with_utxo s_utxo b_lost_ranges b_cb_ranges] in K, A, B.
+    split; [eapply RU_keeps; eauto|]. split; [eapply RN_keeps; eauto|]. auto.
+  - inv H1. cbn [set_st b_st with_utxo s_utxo b_lost_ranges b_cb_ranges]. auto.
+Qed.
+
+Lemma index_txs_bridge : forall cfg h insc l b b' m cbin w0 d0 m2 cbin2 w2 d2 lost,
+  c_sats cfg = true -> RU (s_utxo (b_st b)) m -> RN (s_utxo (b_st b)) lost -> b_cb_ranges b = cbin ->
+  Forall (tx_ok3) l ->
+  index_txs cfg h insc l b = Ok b' -> S.index_txs (map erase_tx l) m cbin w0 d0 = Ok (m2, cbin2, w2, d2) ->
+  RU (s_utxo (b_st b')) m2 /\ RN (s_utxo (b_st b')) lost /\ b_cb_ranges b' = cbin2 /\ b_lost_ranges b' = b_lost_ranges b.
+Proof.
+  intros cfg h insc l. induction l as [|t r IH]; intros b b' m cbin w0 d0 m2 cbin2 w2 d2 lost HS HR HN HC HF H1 H2; cbn [index_txs map S.index_txs] in *.
+  - inv H1. inv H2. auto.
+  - dbind H1. rename a into b1. dbind H2. destruct a as [[[m' lft] w'] d']. apply Forall_cons_iff in HF. destruct HF as [(F1 & F2 & F3) HF2].
+    destruct (index_tx_bridge _ _ _ _ _ _ _ _ _ _ _ _ HS HR HN F1 F2 F3 E E0) as (A & B & C & D).
+    destruct (IH _ _ _ _ _ _ _ _ _ _ _ HS A B (eq_trans C (f_equal (fun x => x ++ lft) HC)) HF2 H1 H2) as (A' & B' & C' & D').
+    split; auto. split; auto. split; auto. congruence.
 Qed.
